@@ -1174,3 +1174,526 @@ Proof.
   intros n h s c p H.
   exact (run_bal _ _ _ _ (inv_init n) (bal_init n) H (Unregistered c p) eq_refl).
 Qed.
+
+(* ================================================================== C07_run_ok: no Crash, no OutOfFuel *)
+
+(* ------------------------------------------------------------------ the fuel of _updateRoot suffices *)
+
+(* a descending path c -> k1 -> k2 ... through .components links *)
+Inductive chain (kd : comp -> comp -> bool) : comp -> list comp -> Prop :=
+| chain_nil : forall c, chain kd c []
+| chain_cons : forall c k l, kd c k = true -> chain kd k l -> chain kd c (k :: l).
+
+Lemma fold_ur_fail : forall n fu kd r c l g0,
+  fold_left (ur_step n fu kd r c) l (Some g0) = None ->
+  exists k g, kd c k = true /\ upd_root n fu kd r k g = None.
+Proof.
+  intros n fu kd r c. induction l as [|a l IH]; intros g0 H; simpl in H; [discriminate|].
+  destruct (kd c a) eqn:Hk.
+  - destruct (upd_root n fu kd r a g0) as [g1|] eqn:H1.
+    + exact (IH g1 H).
+    + exists a, g0. split; assumption.
+  - exact (IH g0 H).
+Qed.
+
+(* running out of fuel fu means there is a descending path with fu edges *)
+Lemma upd_root_fail_chain : forall n kd r fu c f, upd_root n fu kd r c f = None ->
+  exists l, length l = fu /\ chain kd c l.
+Proof.
+  intros n kd r. induction fu as [|fu IH]; intros c f H.
+  - exists []. split; [reflexivity | constructor].
+  - rewrite upd_root_S in H. destruct (fold_ur_fail _ _ _ _ _ _ _ H) as [k [g [Hk Hu]]].
+    destruct (IH k g Hu) as [l [Hl Hc]]. exists (k :: l). split; [simpl; congruence | constructor; assumption].
+Qed.
+
+Lemma chain_nodup : forall kd (rk : comp -> nat), (forall a b, kd a b = true -> rk a < rk b) ->
+  forall l c, chain kd c l -> (forall x, In x l -> rk c < rk x) /\ NoDup (c :: l).
+Proof.
+  intros kd rk Hrk. induction l as [|a l IH]; intros c H.
+  - split; [intros x [] | constructor; [intros [] | constructor]].
+  - inversion H as [|c' k l' Hk Hc]; subst. destruct (IH a Hc) as [Hlt Hnd].
+    assert (Hall : forall x, In x (a :: l) -> rk c < rk x).
+    { intros x [<-|Hx]; [apply Hrk; exact Hk|]. specialize (Hlt x Hx). specialize (Hrk c a Hk). lia. }
+    split; [exact Hall|]. constructor; [|exact Hnd]. intro Hin. specialize (Hall c Hin). lia.
+Qed.
+
+Lemma chain_lt : forall n kd, (forall a b, kd a b = true -> b < n) ->
+  forall l c, chain kd c l -> forall x, In x l -> x < n.
+Proof.
+  intros n kd Hlt. induction l as [|a l IH]; intros c H x Hx; [contradiction|].
+  inversion H as [|c' k l' Hk Hc]; subst. destruct Hx as [<-|Hx]; [eapply Hlt; exact Hk | eapply IH; eassumption].
+Qed.
+
+(* links that increase a rank cannot form a path longer than the pool: fuel n+1 is enough *)
+Lemma upd_root_total : forall n kd r c f,
+  (forall a b, kd a b = true -> b < n) ->
+  (exists rk : comp -> nat, forall a b, kd a b = true -> rk a < rk b) ->
+  c < n -> exists g, upd_root n (S n) kd r c f = Some g.
+Proof.
+  intros n kd r c f Hlt [rk Hrk] Hc.
+  destruct (upd_root n (S n) kd r c f) as [g|] eqn:E; [exists g; reflexivity|]. exfalso.
+  destruct (upd_root_fail_chain _ _ _ _ _ _ E) as [l [Hl Hch]].
+  destruct (chain_nodup kd rk Hrk l c Hch) as [_ Hnd].
+  assert (Hincl : incl (c :: l) (seq 0 n)).
+  { intros x Hx. apply in_seq. split; [lia|]. simpl.
+    destruct Hx as [<-|Hx]; [exact Hc | eapply chain_lt; eassumption]. }
+  pose proof (NoDup_incl_length Hnd Hincl) as Hlen. rewrite seq_length in Hlen. simpl in Hlen. lia.
+Qed.
+
+Lemma inv_rank_down : forall n pa ro kd pe di ca dl, InvF n pa ro kd pe di ca dl ->
+  exists rk : comp -> nat, forall a b, kd a b = true -> rk a < rk b.
+Proof.
+  intros n pa ro kd pe di ca dl I. destruct (i_rank _ _ _ _ _ _ _ _ I) as [rk Hrk]. exists rk.
+  intros a b H. apply (i_kid _ _ _ _ _ _ _ _ I) in H. destruct H as [H1 H2].
+  rewrite <- H1. apply Hrk. congruence.
+Qed.
+
+(* ------------------------------------------------------------------ progress of the primitives *)
+
+Lemma complete_progress : forall n c s, Inv n s -> pend s c = true -> exists s', complete n c s = Ok s'.
+Proof.
+  intros n c s I Hp. unfold complete. rewrite Hp. cbn [negb]. proj.
+  assert (Hatt : par s c <> c) by (apply (i_pend _ _ _ _ _ _ _ _ I); exact Hp).
+  destruct (par s c =? c) eqn:E; [apply Nat.eqb_eq in E; contradiction|].
+  assert (Hk : kid s (par s c) c = true).
+  { apply (i_kid _ _ _ _ _ _ _ _ I). split; [reflexivity | congruence]. }
+  rewrite Hk. cbn [negb]. proj.
+  assert (Hsub : forall a b, upd2 (kid s) (par s c) c false a b = true -> kid s a b = true).
+  { intros a b H. destruct (Nat.eq_dec a (par s c)) as [->|Na]; destruct (Nat.eq_dec b c) as [->|Nb];
+      try (rewrite upd2_same in H; discriminate); (rewrite upd2_other in H by tauto); exact H. }
+  destruct (upd_root_total n (upd2 (kid s) (par s c) c false) c c (rt s)) as [g Hg].
+  - intros a b H. eapply (i_kidlt _ _ _ _ _ _ _ _ I). apply Hsub. exact H.
+  - destruct (inv_rank_down _ _ _ _ _ _ _ _ I) as [rk Hrk]. exists rk. intros a b H. apply Hrk. apply Hsub. exact H.
+  - eapply (i_kidlt _ _ _ _ _ _ _ _ I). exact Hk.
+  - rewrite Hg. eexists. reflexivity.
+Qed.
+
+Lemma register_progress : forall n c p s, Inv n s ->
+  c < n -> p < n -> par s c = c -> pend s c = false -> ~ desc (kid s) c p ->
+  exists s', register n c p s = Ok s'.
+Proof.
+  intros n c p s I Hc Hp Hdet Hnp Hout. unfold register.
+  assert (Hrp : rt s p <> c).
+  { intro E. apply Hout. apply (inv_subtree_reading _ _ _ _ I Hdet). exact E. }
+  assert (Hcp : c <> p) by (intro E; subst; apply Hout; apply desc_refl).
+  apply Nat.ltb_lt in Hc as Hc'. apply Nat.ltb_lt in Hp as Hp'. rewrite Hc', Hp'.
+  rewrite (proj2 (Nat.eqb_eq _ _) Hdet), Hnp.
+  rewrite (proj2 (Nat.eqb_neq _ _) Hrp), (proj2 (Nat.eqb_neq _ _) Hcp). cbn [andb negb]. proj.
+  destruct (upd_root_total n (upd2 (kid s) p c true) (rt s p) c (upd (rt s) c (rt s p))) as [g Hg].
+  - intros a b H. destruct (Nat.eq_dec a p) as [->|Na]; destruct (Nat.eq_dec b c) as [->|Nb]; try exact Hc;
+      (rewrite upd2_other in H by tauto); eapply (i_kidlt _ _ _ _ _ _ _ _ I); exact H.
+  - destruct (i_rank _ _ _ _ _ _ _ _ I) as [rk Hrk].
+    exists (fun x => if rt s x =? c then rk x + rk p + 1 else rk x).
+    intros a b H. destruct (Nat.eq_dec a p) as [->|Na].
+    + destruct (Nat.eq_dec b c) as [->|Nb].
+      * rewrite (proj2 (Nat.eqb_neq _ _) Hrp).
+        rewrite (i_self _ _ _ _ _ _ _ _ I c Hdet), Nat.eqb_refl. lia.
+      * rewrite upd2_other in H by tauto. apply (i_kid _ _ _ _ _ _ _ _ I) in H. destruct H as [H1 H2].
+        assert (R : rt s b = rt s p) by (rewrite <- H1; symmetry; apply (i_rtpar _ _ _ _ _ _ _ _ I)).
+        rewrite R. assert (L : rk p < rk b) by (rewrite <- H1; apply Hrk; congruence).
+        destruct (rt s p =? c); lia.
+    + rewrite upd2_other in H by tauto. apply (i_kid _ _ _ _ _ _ _ _ I) in H. destruct H as [H1 H2].
+      assert (R : rt s b = rt s a) by (rewrite <- H1; symmetry; apply (i_rtpar _ _ _ _ _ _ _ _ I)).
+      rewrite R. assert (L : rk a < rk b) by (rewrite <- H1; apply Hrk; congruence).
+      destruct (rt s a =? c); lia.
+  - exact Hc.
+  - rewrite Hg. eexists. reflexivity.
+Qed.
+
+(* ------------------------------------------------------------------ a completion event only exists for a pending component *)
+
+(* prepare_unregister(c) and prepare_unregister_complete(c) events in the queues of the pool and in the
+   rest of the batch being dispatched *)
+Definition occ (n : nat) (qf : comp -> list ev) (rem : list ev) (c : comp) : nat :=
+  qcount n qf (PrepUnreg c) + qcount n qf (PrepDone c) + cnt (PrepUnreg c) rem + cnt (PrepDone c) rem.
+
+Definition PI (n : nat) (s : st) (rem : list ev) : Prop :=
+  forall c, occ n (q s) rem c <= (if pend s c then 1 else 0).
+
+Lemma cnt_cons : forall e e0 t, cnt e (e0 :: t) = (if ev_eqb e e0 then 1 else 0) + cnt e t.
+Proof. intros. unfold cnt. simpl. destruct (ev_eqb e e0); reflexivity. Qed.
+
+Lemma cnt_nil : forall e, cnt e [] = 0.
+Proof. reflexivity. Qed.
+
+Lemma qcount_enq_le : forall n e qf x e0,
+  qcount n (upd qf x (qf x ++ [e0])) e <= qcount n qf e + (if ev_eqb e e0 then 1 else 0).
+Proof.
+  intros n e qf x e0. destruct (ev_eqb e e0) eqn:E.
+  - apply ev_eqb_eq in E. subst e0. destruct (lt_dec x n) as [L|L].
+    + rewrite qcount_enq_same by exact L. lia.
+    + rewrite qcount_upd_out by exact L. lia.
+  - rewrite qcount_enq_other by exact E. lia.
+Qed.
+
+Lemma dispatch_unfold : forall n r e s, Inv n s -> par s r = r ->
+  exists s2 ms, Inv n s2 /\ q s2 = q s /\ pend s2 = pend s /\ par s2 = par s /\
+    dispatch n r e s = match e with
+                       | PrepUnreg c => Ok (enq (rt s2 r) (PrepDone c) s2)
+                       | PrepDone c => if existsb (Nat.eqb c) ms then complete n c s2 else Ok s2
+                       | _ => Ok s2
+                       end.
+Proof.
+  intros n r e s I Hr. unfold dispatch.
+  destruct (lookup n r e s) as [s1 ms] eqn:Hl.
+  destruct (lookup_inv _ _ _ _ _ _ I Hr Hl) as [I1 [Hms T]].
+  destruct T as [T1 [T2 [T3 [T4 [T5 [T6 [T7 T8]]]]]]].
+  set (d := mkd r e ms (forallb (fun x => rt s1 x =? r) ms)).
+  exists (set_disp s1 (d :: disp s1)), ms.
+  split.
+  { unfold Inv; proj. apply invF_disp; [exact I1|]. cbn [d_ok d].
+    apply forallb_forall. intros x Hx. apply Nat.eqb_eq. apply Hms. exact Hx. }
+  proj. split; [exact T5|]. split; [exact T4|]. split; [exact T1|].
+  destruct e; reflexivity.
+Qed.
+
+Lemma PI_weaken : forall n s s2 e0 t, q s2 = q s -> pend s2 = pend s -> PI n s (e0 :: t) -> PI n s2 t.
+Proof.
+  intros n s s2 e0 t Q P H c. specialize (H c). unfold occ in *. rewrite Q, P.
+  rewrite !cnt_cons in H. lia.
+Qed.
+
+Lemma dispatch_progress : forall n r e0 t s, Inv n s -> par s r = r -> PI n s (e0 :: t) ->
+  exists s', dispatch n r e0 s = Ok s' /\ PI n s' t.
+Proof.
+  intros n r e0 t s I Hr H.
+  destruct (dispatch_unfold n r e0 s I Hr) as [s2 [ms [I2 [Q [P [Pa E]]]]]].
+  rewrite E. pose proof (PI_weaken _ _ _ _ _ Q P H) as W.
+  destruct e0 as [i|a b|a b|a|a|]; try (exists s2; split; [reflexivity | exact W]).
+  - (* prepare_unregister(a): its completion event is fired *)
+    eexists. split; [reflexivity|]. intro c. specialize (H c). unfold occ in *. proj.
+    rewrite Q, P. rewrite !cnt_cons in H.
+    pose proof (qcount_enq_le n (PrepUnreg c) (q s) (rt s2 r) (PrepDone a)) as L1.
+    pose proof (qcount_enq_le n (PrepDone c) (q s) (rt s2 r) (PrepDone a)) as L2.
+    simpl in H, L1, L2. destruct (c =? a); lia.
+  - (* prepare_unregister_complete(a) *)
+    destruct (existsb (Nat.eqb a) ms); [|exists s2; split; [reflexivity | exact W]].
+    assert (Hp : pend s2 a = true).
+    { specialize (H a). unfold occ in H. rewrite !cnt_cons in H. simpl in H. rewrite Nat.eqb_refl in H.
+      rewrite P. destruct (pend s a); [reflexivity | lia]. }
+    destruct (complete_progress n a s2 I2 Hp) as [s' Hs']. exists s'. split; [exact Hs'|].
+    destruct (complete_ok _ _ _ _ Hs') as [_ Hrest].
+    destruct (Hrest (i_pend _ _ _ _ _ _ _ _ I2 a Hp)) as [f [_ ->]].
+    intro c. specialize (H c). unfold occ in *. proj. rewrite Q, P. rewrite !cnt_cons in H.
+    rewrite !qcount_enq_other by reflexivity. simpl in H.
+    destruct (Nat.eq_dec c a) as [->|N].
+    + rewrite upd_same. rewrite Nat.eqb_refl in H. destruct (pend s a); lia.
+    + rewrite upd_other by exact N. rewrite (proj2 (Nat.eqb_neq _ _) N) in H. lia.
+Qed.
+
+Lemma dispatch_all_progress : forall n r sched s, Inv n s -> par s r = r -> PI n s sched ->
+  exists s', dispatch_all n r sched s = Ok s' /\ Inv n s' /\ PI n s' [].
+Proof.
+  intros n r. induction sched as [|e0 t IH]; intros s I Hr H.
+  - exists s. split; [reflexivity | split; assumption].
+  - destruct (dispatch_progress _ _ _ _ _ I Hr H) as [s1 [Hd H1]].
+    destruct (dispatch_inv _ _ _ _ _ I Hr Hd) as [I1 Hr1].
+    destruct (IH s1 I1 Hr1 H1) as [s' [Ha [I' H']]].
+    exists s'. simpl. rewrite Hd. split; [exact Ha | split; assumption].
+Qed.
+
+Lemma remove1_in : forall e l, In e l -> exists l', remove1 e l = Some l'.
+Proof.
+  intros e. induction l as [|x t IH]; intro H; [contradiction|]. simpl.
+  destruct (ev_eqb e x) eqn:E; [eexists; reflexivity|].
+  destruct H as [->|H]; [rewrite (proj2 (ev_eqb_eq e e) eq_refl) in E; discriminate|].
+  destruct (IH H) as [t' ->]. eexists; reflexivity.
+Qed.
+
+Lemma perm_is_perm : forall sched batch, Permutation sched batch -> is_perm sched batch = true.
+Proof.
+  induction sched as [|e t IH]; intros batch H; simpl.
+  - apply Permutation_nil in H. subst. reflexivity.
+  - assert (Hin : In e batch) by (eapply Permutation_in; [exact H | left; reflexivity]).
+    destruct (remove1_in _ _ Hin) as [b R]. rewrite R. apply IH.
+    apply remove1_perm in R. eapply Permutation_cons_inv. eapply perm_trans; [exact H | exact R].
+Qed.
+
+Lemma flush_progress : forall n r sched s, Inv n s -> par s r = r -> r < n -> PI n s [] ->
+  Permutation sched (q s r) ->
+  exists s', flush n r sched s = Ok s' /\ Inv n s' /\ PI n s' [].
+Proof.
+  intros n r sched s I Hr Hrn H P. unfold flush. rewrite (perm_is_perm _ _ P).
+  apply dispatch_all_progress; [exact I | exact Hr|].
+  intro c. specialize (H c). unfold occ in *. proj. rewrite !cnt_nil in H.
+  rewrite (cnt_perm _ _ _ P), (cnt_perm (PrepDone c) _ _ P).
+  pose proof (qcount_upd n (PrepUnreg c) (q s) r [] Hrn) as E1.
+  pose proof (qcount_upd n (PrepDone c) (q s) r [] Hrn) as E2.
+  rewrite cnt_nil in E1, E2. lia.
+Qed.
+
+(* ------------------------------------------------------------------ histories that satisfy the preconditions *)
+
+(* the preconditions of the property's quantifier, read on the state the op is applied to *)
+Definition op_pre (n : nat) (o : op) (s : st) : Prop :=
+  match o with
+  | OReg c p => c < n /\ p < n /\ par s c = c /\ pend s c = false /\ ~ desc (kid s) c p
+  | OUnreg c => c < n /\ par s c <> c
+  | OFire x _ => x < n
+  | OTick r _ => r < n /\ par s r = r
+  | OFlush x _ => x < n
+  end.
+
+(* every flush dispatches its batch in some order: the schedule is a permutation of what is queued *)
+Fixpoint ticks_sched (n : nat) (r : comp) (scheds : list (list ev)) (s : st) : Prop :=
+  match scheds with
+  | [] => True
+  | sc :: t => match q s r with
+               | [] => sc = [] /\ ticks_sched n r t s
+               | _ => Permutation sc (q s (rt s r)) /\
+                      forall s', flush n (rt s r) sc s = Ok s' -> ticks_sched n r t s'
+               end
+  end.
+
+Definition op_sched (n : nat) (o : op) (s : st) : Prop :=
+  match o with
+  | OTick r scheds => ticks_sched n r scheds s
+  | OFlush x sched => Permutation sched (q s (rt s x))
+  | _ => True
+  end.
+
+Fixpoint valid (n : nat) (h : list op) (s : st) : Prop :=
+  match h with
+  | [] => True
+  | o :: t => op_pre n o s /\ op_sched n o s /\ forall s', step n o s = Ok s' -> valid n t s'
+  end.
+
+Lemma ticks_progress : forall n r scheds s, Inv n s -> r < n -> PI n s [] -> ticks_sched n r scheds s ->
+  exists s', ticks n r scheds s = Ok s' /\ Inv n s' /\ PI n s' [].
+Proof.
+  intros n r. induction scheds as [|sc t IH]; intros s I Hr H V.
+  - exists s. split; [reflexivity | split; assumption].
+  - simpl in V |- *. unfold tick1. destruct (q s r) eqn:Q.
+    + destruct V as [-> V]. apply IH; assumption.
+    + destruct V as [P V].
+      destruct (flush_progress n (rt s r) sc s I (i_rtroot _ _ _ _ _ _ _ _ I r)
+                  (i_rtlt _ _ _ _ _ _ _ _ I r Hr) H P) as [s1 [F [I1 H1]]].
+      rewrite F. apply IH; [exact I1 | exact Hr | exact H1 | apply V; exact F].
+Qed.
+
+Lemma step_progress : forall n o s, Inv n s -> PI n s [] -> op_pre n o s -> op_sched n o s ->
+  exists s', step n o s = Ok s' /\ Inv n s' /\ PI n s' [].
+Proof.
+  intros n o s I H Pre Sch. destruct o as [c p|c|x i|r scheds|x sched]; simpl in Pre, Sch |- *.
+  - destruct Pre as [Hc [Hp [Hdet [Hnp Hout]]]].
+    destruct (register_progress n c p s I Hc Hp Hdet Hnp Hout) as [s' R]. exists s'. split; [exact R|].
+    split; [eapply register_inv; eassumption|].
+    intro c'. specialize (H c'). unfold occ in *.
+    pose proof (register_queue _ _ _ _ _ I R) as [Hrc _].
+    destruct (register_ok _ _ _ _ _ R) as [_ [_ [_ [_ [Hrp [_ [f [_ E]]]]]]]].
+    assert (HR : rt s p < n) by (apply (i_rtlt _ _ _ _ _ _ _ _ I); exact Hp).
+    rewrite E in Hrc |- *. proj_in Hrc. proj. rewrite Hrc.
+    rewrite !qcount_enq_other by reflexivity.
+    assert (X : forall e, qcount n (upd (upd (q s) (rt s p) (q s (rt s p) ++ q s c)) c []) e = qcount n (q s) e).
+    { intro e.
+      pose proof (qcount_upd n e (q s) (rt s p) (q s (rt s p) ++ q s c) HR) as X1. rewrite cnt_app in X1.
+      pose proof (qcount_upd n e (upd (q s) (rt s p) (q s (rt s p) ++ q s c)) c [] Hc) as X2.
+      rewrite upd_other in X2 by (intro Y; apply Hrp; symmetry; exact Y). rewrite cnt_nil in X2. lia. }
+    rewrite !X. exact H.
+  - destruct Pre as [Hc Hatt]. unfold unregister.
+    rewrite (proj2 (Nat.ltb_lt _ _) Hc), (proj2 (Nat.eqb_neq _ _) Hatt). cbn [andb negb].
+    destruct (pend s c) eqn:Hp.
+    + exists s. split; [reflexivity | split; assumption].
+    + eexists. split; [reflexivity|]. split.
+      * eapply unregister_inv; [exact I|]. unfold unregister.
+        rewrite (proj2 (Nat.ltb_lt _ _) Hc), (proj2 (Nat.eqb_neq _ _) Hatt), Hp. reflexivity.
+      * intro c'. pose proof (H c') as H'. unfold occ in *. proj.
+        pose proof (qcount_enq_le n (PrepUnreg c') (q s) (rt s c) (PrepUnreg c)) as L1.
+        rewrite (qcount_enq_other n (PrepDone c')) by reflexivity.
+        simpl in L1. destruct (Nat.eq_dec c' c) as [->|N].
+        -- rewrite upd_same. rewrite Hp in H'. rewrite Nat.eqb_refl in L1. lia.
+        -- rewrite upd_other by exact N. rewrite (proj2 (Nat.eqb_neq _ _) N) in L1. lia.
+  - rewrite (proj2 (Nat.ltb_lt _ _) Pre). eexists. split; [reflexivity|]. split; [exact I|].
+    intro c. specialize (H c). unfold occ in *. proj. rewrite !qcount_enq_other by reflexivity. exact H.
+  - destruct Pre as [Hr Hroot].
+    rewrite (proj2 (Nat.ltb_lt _ _) Hr), (proj2 (Nat.eqb_eq _ _) Hroot). cbn [andb].
+    apply ticks_progress; assumption.
+  - rewrite (proj2 (Nat.ltb_lt _ _) Pre).
+    apply flush_progress; try assumption.
+    + apply (i_rtroot _ _ _ _ _ _ _ _ I).
+    + apply (i_rtlt _ _ _ _ _ _ _ _ I). exact Pre.
+Qed.
+
+Lemma run_progress : forall n h s, Inv n s -> PI n s [] -> valid n h s ->
+  exists s', run n h s = Ok s' /\ Inv n s' /\ PI n s' [].
+Proof.
+  intros n. induction h as [|o t IH]; intros s I H V.
+  - exists s. split; [reflexivity | split; assumption].
+  - destruct V as [Pre [Sch V]].
+    destruct (step_progress n o s I H Pre Sch) as [s1 [S [I1 H1]]].
+    simpl. rewrite S. apply IH; [exact I1 | exact H1 | apply V; exact S].
+Qed.
+
+Lemma qcount_empty : forall n e, qcount n (fun _ => []) e = 0.
+Proof.
+  intros n e. unfold qcount, qsum. induction (seq 0 n) as [|a l IH]; simpl; [reflexivity | exact IH].
+Qed.
+
+Lemma PI_init : forall n, PI n init [].
+Proof.
+  intros n c. unfold occ. change (q init) with (fun _ : comp => @nil ev).
+  rewrite !qcount_empty, !cnt_nil. simpl. lia.
+Qed.
+
+(* every history that satisfies the preconditions, under every schedule, runs to Ok:
+   no Crash (delattr / set.remove), no OutOfFuel (_updateRoot), no PreViolated, no BadSched *)
+Lemma run_ok_pi : forall n h, valid n h init -> exists s, run n h init = Ok s /\ Inv n s /\ PI n s [].
+Proof. intros n h V. apply run_progress; [apply inv_init | apply PI_init | exact V]. Qed.
+
+Lemma run_ok : forall n h, valid n h init -> exists s, run n h init = Ok s.
+Proof. intros n h V. destruct (run_ok_pi n h V) as [s [R _]]. exists s. exact R. Qed.
+
+(* whatever the history and the schedules are, the model never crashes and never runs out of fuel *)
+Definition safe (r : res st) : Prop :=
+  match r with Crash | OutOfFuel => False | _ => True end.
+
+Lemma flush_safe : forall n r sched s, Inv n s -> par s r = r -> r < n -> PI n s [] ->
+  (exists s', flush n r sched s = Ok s' /\ Inv n s' /\ PI n s' []) \/ flush n r sched s = BadSched.
+Proof.
+  intros n r sched s I Hr Hrn H. destruct (is_perm sched (q s r)) eqn:P.
+  - left. apply flush_progress; try assumption. apply is_perm_perm. exact P.
+  - right. unfold flush. rewrite P. reflexivity.
+Qed.
+
+Lemma ticks_safe : forall n r scheds s, Inv n s -> r < n -> PI n s [] ->
+  (exists s', ticks n r scheds s = Ok s' /\ Inv n s' /\ PI n s' []) \/ ticks n r scheds s = BadSched.
+Proof.
+  intros n r. induction scheds as [|sc t IH]; intros s I Hr H.
+  - left. exists s. split; [reflexivity | split; assumption].
+  - simpl. unfold tick1. destruct (q s r) eqn:Q.
+    + destruct sc; [apply IH; assumption | right; reflexivity].
+    + destruct (flush_safe n (rt s r) sc s I (i_rtroot _ _ _ _ _ _ _ _ I r)
+                  (i_rtlt _ _ _ _ _ _ _ _ I r Hr) H) as [[s1 [F [I1 H1]]] | F]; rewrite F.
+      * apply IH; assumption.
+      * right; reflexivity.
+Qed.
+
+Lemma step_safe : forall n o s, Inv n s -> PI n s [] ->
+  (exists s', step n o s = Ok s' /\ Inv n s' /\ PI n s' []) \/ step n o s = PreViolated \/ step n o s = BadSched.
+Proof.
+  intros n o s I H. destruct o as [c p|c|x i|r scheds|x sched].
+  - destruct ((c <? n) && (p <? n) && (par s c =? c) && negb (pend s c) && negb (rt s p =? c) && negb (c =? p)) eqn:C.
+    + left. apply step_progress; [exact I | exact H | | exact Logic.I].
+      repeat (apply andb_prop in C; destruct C as [C ?]).
+      apply Nat.ltb_lt in C. apply Nat.ltb_lt in H4. apply Nat.eqb_eq in H3.
+      apply negb_true_iff in H2. apply negb_true_iff in H1. apply Nat.eqb_neq in H1.
+      simpl. repeat (split; [assumption|]).
+      intro D. apply H1. apply (inv_subtree_reading _ _ _ _ I H3). exact D.
+    + right; left. simpl. unfold register. rewrite C. reflexivity.
+  - destruct ((c <? n) && negb (par s c =? c)) eqn:C.
+    + left. apply step_progress; [exact I | exact H | | exact Logic.I].
+      apply andb_prop in C. destruct C as [C1 C2]. apply Nat.ltb_lt in C1.
+      apply negb_true_iff in C2. apply Nat.eqb_neq in C2. simpl. split; assumption.
+    + right; left. simpl. unfold unregister. rewrite C. reflexivity.
+  - destruct (x <? n) eqn:C.
+    + left. apply step_progress; [exact I | exact H | | exact Logic.I]. simpl. apply Nat.ltb_lt. exact C.
+    + right; left. simpl. rewrite C. reflexivity.
+  - simpl. destruct ((r <? n) && (par s r =? r)) eqn:C.
+    + apply andb_prop in C. destruct C as [C1 C2]. apply Nat.ltb_lt in C1.
+      destruct (ticks_safe n r scheds s I C1 H) as [Ok1 | Bad]; [left; exact Ok1 | right; right; exact Bad].
+    + right; left. reflexivity.
+  - simpl. destruct (x <? n) eqn:C.
+    + apply Nat.ltb_lt in C.
+      destruct (flush_safe n (rt s x) sched s I (i_rtroot _ _ _ _ _ _ _ _ I x)
+                  (i_rtlt _ _ _ _ _ _ _ _ I x C) H) as [Ok1 | Bad]; [left; exact Ok1 | right; right; exact Bad].
+    + right; left. reflexivity.
+Qed.
+
+Lemma run_safe_from : forall n h s, Inv n s -> PI n s [] -> safe (run n h s).
+Proof.
+  intros n. induction h as [|o t IH]; intros s I H; simpl; [exact Logic.I|].
+  destruct (step_safe n o s I H) as [[s1 [S [I1 H1]]] | [S | S]]; rewrite S; [|exact Logic.I | exact Logic.I].
+  apply IH; assumption.
+Qed.
+
+(* for EVERY history and schedule: the outcome is Ok, PreViolated or BadSched *)
+Lemma run_safe : forall n h, run n h init <> Crash /\ run n h init <> OutOfFuel.
+Proof.
+  intros n h. pose proof (run_safe_from n h init (inv_init n) (PI_init n)) as S.
+  split; intro E; rewrite E in S; exact S.
+Qed.
+
+(* ------------------------------------------------------------------ the theorems for all valid histories *)
+
+Lemma valid_app : forall n h o s0, valid n (h ++ [o]) s0 ->
+  valid n h s0 /\ forall s, run n h s0 = Ok s -> op_pre n o s /\ op_sched n o s.
+Proof.
+  intros n. induction h as [|a t IH]; intros o s0 V.
+  - simpl in V. destruct V as [P [S _]]. split; [exact Logic.I|].
+    intros s R. simpl in R. inversion R; subst. split; assumption.
+  - simpl in V. destruct V as [P [S V]]. split.
+    + simpl. split; [exact P | split; [exact S|]]. intros s' St. exact (proj1 (IH o s' (V s' St))).
+    + intros s R. simpl in R. destruct (step n a s0) as [s1| | | |] eqn:St; try discriminate.
+      exact (proj2 (IH o s1 (V s1 eq_refl)) s R).
+Qed.
+
+Lemma valid_forest : forall n h, valid n h init -> exists s, run n h init = Ok s /\ forest s.
+Proof. intros n h V. destruct (run_ok n h V) as [s R]. exists s. split; [exact R | eapply run_forest; exact R]. Qed.
+
+Lemma valid_pending_attached : forall n h, valid n h init ->
+  exists s, run n h init = Ok s /\ forall c, pend s c = true -> par s c <> c.
+Proof.
+  intros n h V. destruct (run_ok n h V) as [s R]. exists s. split; [exact R|].
+  intros c. eapply run_pending_attached; exact R.
+Qed.
+
+Lemma valid_announce : forall n h, valid n h init ->
+  exists s, run n h init = Ok s /\
+    forall c p, qcount n (q s) (Registered c p) + dcount (disp s) (Registered c p) = count_reg c p h /\
+                qcount n (q s) (Unregistered c p) + dcount (disp s) (Unregistered c p) = cntp c p (unregd s).
+Proof.
+  intros n h V. destruct (run_ok n h V) as [s R]. exists s. split; [exact R|].
+  intros c p. split; [eapply run_announce_registered | eapply run_announce_unregistered]; exact R.
+Qed.
+
+Lemma valid_deliveries : forall n h, valid n h init ->
+  exists s, run n h init = Ok s /\ forall d, In d (disp s) -> d_ok d = true.
+Proof.
+  intros n h V. destruct (run_ok n h V) as [s R]. exists s. split; [exact R|].
+  intro d. eapply run_deliveries; exact R.
+Qed.
+
+Lemma valid_register : forall n h c p, valid n (h ++ [OReg c p]) init ->
+  exists s s', run n h init = Ok s /\ register n c p s = Ok s' /\
+    (rt s' c = rt s p /\ q s' (rt s p) = q s (rt s p) ++ q s c ++ [Registered c p] /\ q s' c = [] /\
+     (forall x, x <> c -> x <> rt s p -> q s' x = q s x)) /\
+    (par s' c = p /\ kid s' p c = true /\
+     (forall x, desc (kid s) c x ->
+        rt s' x = rt s p /\ desc (kid s') c x /\
+        (x <> c -> par s' x = par s x /\ kid s' (par s x) x = kid s (par s x) x)) /\
+     (forall x, ~ desc (kid s) c x -> rt s' x = rt s x /\ par s' x = par s x)).
+Proof.
+  intros n h c p V. destruct (valid_app _ _ _ _ V) as [Vh Pre].
+  destruct (run_ok n h Vh) as [s R]. destruct (Pre s R) as [[Hc [Hp [Hdet [Hnp Hout]]]] _].
+  destruct (register_progress n c p s (run_inv0 _ _ _ R) Hc Hp Hdet Hnp Hout) as [s' Rg].
+  exists s, s'. split; [exact R|]. split; [exact Rg|]. split.
+  - eapply run_register_queue; eassumption.
+  - eapply run_move_connected; eassumption.
+Qed.
+
+Lemma valid_detach : forall n h, valid n h init ->
+  exists s, run n h init = Ok s /\
+    forall c, pend s c = true ->
+    exists s', complete n c s = Ok s' /\
+      par s' c = c /\ pend s' c = false /\ kid s' (par s c) c = false /\
+      (forall x, desc (kid s) c x ->
+         rt s' x = c /\ desc (kid s') c x /\
+         (x <> c -> par s' x = par s x /\ kid s' (par s x) x = kid s (par s x) x)) /\
+      (forall x, ~ desc (kid s) c x -> rt s' x = rt s x /\ par s' x = par s x).
+Proof.
+  intros n h V. destruct (run_ok n h V) as [s R]. exists s. split; [exact R|].
+  intros c Hp. destruct (complete_progress n c s (run_inv0 _ _ _ R) Hp) as [s' C].
+  exists s'. split; [exact C|]. eapply run_detach_connected; eassumption.
+Qed.
+
+Lemma valid_flush : forall n h x sched, valid n (h ++ [OFlush x sched]) init ->
+  exists s s', run n h init = Ok s /\ flush n (rt s x) sched s = Ok s' /\
+    Permutation sched (q s (rt s x)) /\
+    exists ds, disp s' = ds ++ disp s /\ map d_ev (rev ds) = sched /\ (forall d, In d ds -> d_root d = rt s x).
+Proof.
+  intros n h x sched V. destruct (valid_app _ _ _ _ V) as [Vh Pre].
+  destruct (run_ok_pi n h Vh) as [s [R [I H]]]. destruct (Pre s R) as [Hx P]. simpl in Hx, P.
+  destruct (flush_progress n (rt s x) sched s I (i_rtroot _ _ _ _ _ _ _ _ I x)
+              (i_rtlt _ _ _ _ _ _ _ _ I x Hx) H P) as [s' [F _]].
+  exists s, s'. split; [exact R|]. split; [exact F|]. eapply flush_dispatches_batch. exact F.
+Qed.
